@@ -143,18 +143,25 @@ set_option maxRecDepth 100000 in
     two unreliable slices, an unreliable small packet, the ack packet) -/
 example : exConn.pendingAcks = [(3, 4), (9, 10)] ∧ exConn.order = [(true, 0), (false, 1)] ∧
     (match exConn.getPacketsToSend with
-     | .ok (c', bs) => bs.map List.length = [1208, 1208, 108, 12, 1208, 108, 13, 7] ∧ c'.packetSeq = 8 ∧ c'.status = .connected
-     | _ => False) := by decide +kernel
+     | .ok (c', bs) => (bs.map List.length, c'.packetSeq, c'.status)
+     | _ => ([], 0, .connecting)) = ([1208, 1208, 108, 12, 1208, 108, 13, 7], 8, .connected) := by decide +kernel
 
-/-- The hypothesis `pendingAcks.length ≤ ACK_RANGE_CAP` of `connection_fits` is not an invariant of the model (nor of
-    the code: remote_connection.rs:645-660 applies the cap only on the append path).  Receiving 160 packets whose
-    sequence numbers descend in steps of 2^31 leaves 160 pending ranges, and the ack packet then needs more than
-    `SER_BUFFER` bytes: `to_bytes` fails with `BufferTooShort`. -/
-def manyAcks : List AckRange :=
-  (List.range 160).foldl (fun l k => Acks.add ACK_RANGE_CAP ((200 - k) * 2147483648) l) []
+/-- The pending-ack part of the invariant is inductive: recording a received sequence number `< 2^62` keeps the list
+    well-formed, within `ACK_RANGE_CAP` ranges (on every path of `add_pending_ack` — the tree under verification
+    contains the `fix:` for the insert path, finding D16) and with range ends `≤ 2^62`. -/
+theorem pending_acks_invariant (seq : Nat) (l : List AckRange) (h : Acks.WF l) (hl : l.length ≤ ACK_RANGE_CAP)
+    (hb : ∀ r ∈ l, r.2 ≤ Varint.MAX + 1) (hs : seq ≤ Varint.MAX) :
+    Acks.WF (Acks.add ACK_RANGE_CAP seq l) ∧ (Acks.add ACK_RANGE_CAP seq l).length ≤ ACK_RANGE_CAP ∧
+    ∀ r ∈ Acks.add ACK_RANGE_CAP seq l, r.2 ≤ Varint.MAX + 1 :=
+  ⟨Acks.add_wf _ _ _ h, Acks.add_length _ _ _ (by decide) h hl, Acks.add_bound _ _ _ _ h hb (by omega)⟩
+
+/-- The cap matters: 160 well-formed ranges spaced 2^31 apart (what the pre-fix code accumulated from 160 packets
+    with descending sequence numbers) make an ack packet that does not fit `SER_BUFFER`: `to_bytes` fails with
+    `BufferTooShort`, which `get_packets_to_send` turns into a self-disconnect. -/
+def manyAcks : List AckRange := (List.range 160).map (fun k => (k * 2147483648, k * 2147483648 + 1))
 
 set_option maxRecDepth 100000 in
-theorem ack_cap_not_invariant :
+theorem ack_cap_needed :
     manyAcks.length = 160 ∧ acksWFb manyAcks = true ∧
     (Packet.ack 0 manyAcks).toBytes SER_BUFFER = .err .bufferTooShort := by decide +kernel
 
